@@ -43,6 +43,7 @@ class FakeSocket(object):
         self.recv_log = []        # (n requested, n returned or 'eof' / 'reset')
         self.connected = None
         self.blocking_reads = 0
+        self.failed_sends = 0
 
     # -- API used by the library
     def recv(self, n):
@@ -65,6 +66,9 @@ class FakeSocket(object):
     def sendall(self, data):
         if self.closed:
             raise OSError(9, 'Bad file descriptor')
+        if self.peer_reset:
+            self.failed_sends += 1
+            raise OSError(32, 'Broken pipe')          # the connection has been reset: writes fail
         self.sent.append(bytes(data))
 
     send = sendall
@@ -104,6 +108,9 @@ class Env(object):
         env = self
 
         def _select(r, w, x, timeout=None):
+            for s in r:
+                if isinstance(s, FakeSocket) and s.closed:
+                    raise ValueError('file descriptor cannot be a negative integer (-1)')    # what select does with a closed socket
             ready = [s for s in r if isinstance(s, FakeSocket) and s.readable()]
             return ready, [], []
 
